@@ -169,3 +169,23 @@ Definition scan_objects_fuel (L : limits) (fuel : nat) (s : bytes) : res (list o
   end.
 Definition scan_objects (L : limits) (data : bytes) : res (list obj * bytes) :=
   let s := data ++ [cRB] in scan_objects_fuel L (scan_fuel s) s.
+
+(* ---- the order of dictionary keys in a text ----
+   read_dict_loop keeps the entries in the order of the text, so the scanned value of a formatted
+   text shows the order in which the formatter emitted the keys.  [text_ordered]: in every
+   dictionary of the value the keys are strictly increasing in the order of Dict.SortedKeys
+   (Obj.key_ltb: "Type", "Subtype", then byte-wise). *)
+Fixpoint keys_ordered (ks : list bytes) : bool :=
+  match ks with
+  | a :: ((b :: _) as r) => key_ltb a b && keys_ordered r
+  | _ => true
+  end.
+Fixpoint text_ordered (o : obj) : bool :=
+  match o with
+  | OArr l => forallb text_ordered l
+  | ODict l =>
+    keys_ordered (map fst l) &&
+    (fix go (l : list (bytes * obj)) : bool :=
+       match l with [] => true | (_, v) :: r => text_ordered v && go r end) l
+  | _ => true
+  end.
